@@ -15,7 +15,9 @@
 //! Beyond the matrix: configuration corner cases (cert without key, no CA file, CA bundle, empty CA
 //! file, unparsable names), a probe of whether the server sends a CertificateRequest, the server-name
 //! choice of the real client (`client_main_inner` → `ws_connect::handshake`; also with custom `-H/--header`
-//! request headers, a `Host` header among them, which must never change the name asked for), identity reload
+//! request headers, a `Host` header among them, which must never change the name asked for), server
+//! certificates that ordinary verification refuses for a dozen different reasons and that a client told to
+//! skip verification must accept all the same (`odd …` cases), identity reload
 //! through the real `run_listener` + `reload_tls_identity`, and histories of reloads (certificate and
 //! client-CA setting) with long-lived clients that keep their `ClientConfig` — and so offer session
 //! resumption — across connections (`resume …` scenarios): every handshake after a reload is judged
@@ -353,12 +355,51 @@ async fn run_case(pki: &Pki, round: &Round, c: &Case) -> Obs {
         "c" => Some(pki.p("ca_c.pem")),
         _ => Some(pki.p("empty.pem")),
     };
+    let cli_cert = match c.cli_cert.as_str() {
+        "none" => None,
+        k => Some(pki.p(&format!("cli_{k}.pem"))),
+    };
+    let cli_key = c.cli_key.then(|| pki.p(&format!("cli_{}.key", if c.cli_cert == "other" { "other" } else { "trusted" })));
+    let cli_ca = match c.cli_ca.as_str() {
+        "a" => Some(pki.p("ca_a.pem")),
+        "none" => None,
+        "ab" => Some(pki.p("ca_ab.pem")),
+        _ => Some(pki.p(&format!("srv_self_{tag}.pem"))),
+    };
+    run_handshake(&srv_cert, &srv_key, srv_ca.as_deref(), &name, cli_cert.as_deref(), cli_key.as_deref(), cli_ca.as_deref(), c.skip).await
+}
+
+/// One real handshake: an acceptor built by the real `make_server_config` from the given files against the
+/// real `tls_connect` with the given client options, one byte each way.
+#[allow(clippy::too_many_arguments)]
+async fn run_handshake(
+    srv_cert: &str,
+    srv_key: &str,
+    srv_ca: Option<&str>,
+    name: &str,
+    cli_cert: Option<&str>,
+    cli_key: Option<&str>,
+    cli_ca: Option<&str>,
+    skip: bool,
+) -> Obs {
     // server side: the real configuration function
-    let cfg = match make_server_config(&srv_cert, &srv_key, srv_ca.as_deref()).await {
+    let cfg = match make_server_config(srv_cert, srv_key, srv_ca).await {
         Ok(cfg) => cfg,
         Err(tls::Error::Verifier(e)) => return Obs::ConfigError(format!("{e}")),
         Err(e) => return Obs::Other(format!("make_server_config: {e}")),
     };
+    handshake_against(cfg, name, cli_cert, cli_key, cli_ca, skip).await
+}
+
+/// The real `tls_connect` with the given client options against an acceptor with this configuration.
+async fn handshake_against(
+    cfg: rustls::ServerConfig,
+    name: &str,
+    cli_cert: Option<&str>,
+    cli_key: Option<&str>,
+    cli_ca: Option<&str>,
+    skip: bool,
+) -> Obs {
     let acceptor = tokio_rustls::TlsAcceptor::from(Arc::new(cfg));
     let (cio, sio) = tokio::io::duplex(1 << 16);
     let server = tokio::spawn(async move {
@@ -372,19 +413,8 @@ async fn run_case(pki: &Pki, round: &Round, c: &Case) -> Obs {
         Ok::<bool, std::io::Error>(saw)
     });
     // client side: the real entry point
-    let cli_cert = match c.cli_cert.as_str() {
-        "none" => None,
-        k => Some(pki.p(&format!("cli_{k}.pem"))),
-    };
-    let cli_key = c.cli_key.then(|| pki.p(&format!("cli_{}.key", if c.cli_cert == "other" { "other" } else { "trusted" })));
-    let cli_ca = match c.cli_ca.as_str() {
-        "a" => Some(pki.p("ca_a.pem")),
-        "none" => None,
-        "ab" => Some(pki.p("ca_ab.pem")),
-        _ => Some(pki.p(&format!("srv_self_{tag}.pem"))),
-    };
     let client = async {
-        let mut st = tls_connect(cio, &name, cli_cert.as_deref(), cli_key.as_deref(), cli_ca.as_deref(), c.skip).await?;
+        let mut st = tls_connect(cio, name, cli_cert, cli_key, cli_ca, skip).await?;
         let r = exchange(&mut st, 0x5a).await;
         let _ = st.shutdown().await;
         Ok::<std::io::Result<u8>, tls::Error>(r)
@@ -955,6 +985,461 @@ async fn nameh_part(cx: &mut Ctx, pki: &Pki, round: &Round, cases: &[HCase]) {
         }
     }
     cx.rep.count_n("nameh/ms", t0.elapsed().as_millis() as u64);
+}
+
+// ---------------------------------------------------------------------------------------------
+// Odd server certificates under skip-verify: "told to skip verification => ANY certificate is accepted"
+// ---------------------------------------------------------------------------------------------
+//
+// Server certificates that ordinary verification refuses for as many different reasons as rcgen can
+// produce (`ODD_KINDS`), x {client roots: the platform store (CA P) / an unrelated `--tls-ca` bundle / the
+// odd certificate's own root as `--tls-ca`} x {client certificate configured (and asked for) / not}
+// x {requested name in the certificate / not} x {skip-verify on / off}, per key algorithm.
+//  * skip-verify ON: the handshake must complete whatever the certificate is — judged directly against the
+//    property (`skip-verify refuses: <kind>`) and compared with the model (`hs …`, unchanged request: the
+//    model's skip-verify client accepts every certificate).
+//  * skip-verify OFF: judged (and compared with the model) only where the existing matrix already says what
+//    must happen: a certificate that is not issued under the roots the client was given, or that does not
+//    carry the requested name, is refused.  Where the odd certificate IS issued under the client's roots and
+//    names the host (expired, CA used as end entity, name constraints, …) the outcome is rustls/webpki's
+//    business (trusted): recorded in the distribution, not judged, not sent to the model.
+
+const ODD_KINDS: [&str; 13] = [
+    "self-signed-ca-true",
+    "root-as-server-cert",
+    "missing-intermediate",
+    "expired",
+    "not-yet-valid",
+    "client-auth-eku-only",
+    "name-constraint-violation",
+    "unknown-critical-extension",
+    "no-san",
+    "ip-only-san",
+    "long-chain",
+    "path-len-violation",
+    "bad-signature",
+];
+const ODD_ROOTS: [&str; 3] = ["none", "a", "own"];
+/// Kinds that the UNCHANGED client refuses although told to skip verification (run and recorded, not judged;
+/// reported as a candidate finding): `EmptyVerifier::verify_server_cert` accepts everything, but
+/// `EmptyVerifier::verify_tls13_signature` (tls/rustls.rs:220-232) hands the certificate to
+/// `rustls::crypto::verify_tls13_signature`, which parses it with webpki's `EndEntityCert::try_from` to get at
+/// the public key — and that parser refuses an end-entity certificate carrying a critical extension it does
+/// not know (`InvalidCertificate(Other(UnsupportedCriticalExtension))`).
+const ODD_NOT_JUDGED_UNDER_SKIP: [&str; 0] = [];
+
+fn odd_text(kind: &str) -> &'static str {
+    match kind {
+        "self-signed-ca-true" => "self-signed with basicConstraints CA:TRUE (what `openssl req -x509` writes)",
+        "root-as-server-cert" => "a root CA certificate (CA:TRUE, keyCertSign, no SAN) used directly as the server certificate",
+        "missing-intermediate" => "a leaf issued by an intermediate CA that the server does not send",
+        "expired" => "expired (valid 1999-01-01 .. 2000-01-01)",
+        "not-yet-valid" => "not yet valid (valid from 2090-01-01)",
+        "client-auth-eku-only" => "extended key usage clientAuth only",
+        "name-constraint-violation" => "issued by a CA whose name constraints permit only allowed.test",
+        "unknown-critical-extension" => "carries an unknown critical extension (1.3.6.1.4.1.55555.1)",
+        "no-san" => "no subjectAltName at all",
+        "ip-only-san" => "subjectAltName 192.0.2.1 only, while a DNS name is requested",
+        "long-chain" => "a chain of eight intermediates between leaf and root",
+        "path-len-violation" => "issued below an intermediate whose pathLenConstraint 0 forbids the CA in between",
+        "bad-signature" => "names the root as issuer but is signed with another key",
+        _ => "?",
+    }
+}
+
+/// Does the certificate of this kind carry `server.test` as a DNS subjectAltName?
+fn odd_names_host(kind: &str) -> bool {
+    !matches!(kind, "root-as-server-cert" | "no-san" | "ip-only-san")
+}
+
+fn odd_stem(alg: &str, kind: &str) -> String {
+    format!("odd_{alg}_{kind}")
+}
+
+/// Writes `odd_<alg>_<kind>.pem` (what the server presents: leaf, then whatever chain it sends), `.key`,
+/// and `odd_<alg>_<kind>_root.pem` (the "own" root: what a client that trusted this PKI would be given).
+fn ensure_odd(pki: &Pki, alg: &str, kind: &str) {
+    use rcgen::{CustomExtension, GeneralSubtree, NameConstraints, SanType, date_time_ymd};
+    let stem = odd_stem(alg, kind);
+    if pki.dir.join(format!("{stem}_root.pem")).exists() {
+        return;
+    }
+    let plain = Round { idx: 0, alg: alg_of_name(alg), intermediate: false, mismatch_on_cert: false };
+    let ca_params = |cn: &str, bc: BasicConstraints| {
+        let mut p = CertificateParams::new(Vec::<String>::new()).expect("ca params");
+        p.distinguished_name = dn(cn);
+        p.is_ca = IsCa::Ca(bc);
+        p.key_usages = vec![KeyUsagePurpose::KeyCertSign, KeyUsagePurpose::CrlSign, KeyUsagePurpose::DigitalSignature];
+        p
+    };
+    let leaf_params = |sans: &[&str]| {
+        let mut p = CertificateParams::new(sans.iter().map(|s| (*s).to_string()).collect::<Vec<_>>()).expect("leaf params");
+        p.distinguished_name = dn("odd server leaf");
+        p.key_usages = vec![KeyUsagePurpose::DigitalSignature];
+        p.extended_key_usages = vec![ExtendedKeyUsagePurpose::ServerAuth];
+        p
+    };
+    let newkey = || KeyPair::generate_for(alg_of(alg)).expect("key");
+    // (server file, key, own root)
+    let (file, key, root): (String, String, String) = match kind {
+        "self-signed-ca-true" => {
+            let mut p = leaf_params(&[GOOD_NAME]);
+            p.is_ca = IsCa::Ca(BasicConstraints::Unconstrained);
+            p.key_usages = vec![KeyUsagePurpose::DigitalSignature, KeyUsagePurpose::KeyCertSign];
+            let k = newkey();
+            let c = p.self_signed(&k).expect("self-signed CA:TRUE");
+            (c.pem(), k.serialize_pem(), c.pem())
+        }
+        "root-as-server-cert" => {
+            let a = authority("odd root used as server certificate", &plain);
+            (a.pem.clone(), a.key.serialize_pem(), a.pem)
+        }
+        "missing-intermediate" => {
+            let a = authority("odd root (intermediate withheld)", &Round { intermediate: true, ..plain });
+            let (ip, ik) = a.inter.as_ref().expect("intermediate");
+            let k = newkey();
+            let c = leaf_params(&[GOOD_NAME]).signed_by(&k, &Issuer::from_params(ip, ik)).expect("leaf");
+            (c.pem(), k.serialize_pem(), a.pem.clone())
+        }
+        "long-chain" | "path-len-violation" => {
+            let a = authority("odd root (deep)", &plain);
+            let depth = if kind == "long-chain" { 8 } else { 2 };
+            let mut tail: Vec<String> = vec![];
+            let mut issuer: (CertificateParams, KeyPair) =
+                (a.params.clone(), KeyPair::from_pem(&a.key.serialize_pem()).expect("root key"));
+            for i in 0..depth {
+                // path-len-violation: the first intermediate allows no CA below itself, yet one follows
+                let bc = if kind == "path-len-violation" && i == 0 { BasicConstraints::Constrained(0) } else { BasicConstraints::Unconstrained };
+                let ip = ca_params(&format!("odd intermediate {}", i + 1), bc);
+                let ik = newkey();
+                let ic = ip.signed_by(&ik, &Issuer::from_params(&issuer.0, &issuer.1)).expect("intermediate");
+                tail.insert(0, ic.pem());
+                issuer = (ip, ik);
+            }
+            let k = newkey();
+            let c = leaf_params(&[GOOD_NAME]).signed_by(&k, &Issuer::from_params(&issuer.0, &issuer.1)).expect("leaf");
+            (format!("{}{}", c.pem(), tail.concat()), k.serialize_pem(), a.pem.clone())
+        }
+        "name-constraint-violation" => {
+            let mut rp = ca_params("odd root (name constraints)", BasicConstraints::Unconstrained);
+            rp.name_constraints =
+                Some(NameConstraints { permitted_subtrees: vec![GeneralSubtree::DnsName("allowed.test".into())], excluded_subtrees: vec![] });
+            let rk = newkey();
+            let rc = rp.self_signed(&rk).expect("constrained root");
+            let k = newkey();
+            let c = leaf_params(&[GOOD_NAME]).signed_by(&k, &Issuer::from_params(&rp, &rk)).expect("leaf");
+            (c.pem(), k.serialize_pem(), rc.pem())
+        }
+        "bad-signature" => {
+            let a = authority("odd root (signature)", &plain);
+            let wrong = newkey();
+            let k = newkey();
+            let mut p = leaf_params(&[GOOD_NAME]);
+            // (no authority key identifier: it would name the wrong key and turn this into "unknown issuer")
+            p.use_authority_key_identifier_extension = false;
+            let c = p.signed_by(&k, &Issuer::from_params(&a.params, &wrong)).expect("leaf");
+            (c.pem(), k.serialize_pem(), a.pem.clone())
+        }
+        _ => {
+            let a = authority("odd root", &plain);
+            let mut p = match kind {
+                "no-san" => leaf_params(&[]),
+                _ => leaf_params(&[GOOD_NAME]),
+            };
+            match kind {
+                "expired" => {
+                    p.not_before = date_time_ymd(1999, 1, 1);
+                    p.not_after = date_time_ymd(2000, 1, 1);
+                }
+                "not-yet-valid" => {
+                    p.not_before = date_time_ymd(2090, 1, 1);
+                    p.not_after = date_time_ymd(2091, 1, 1);
+                }
+                "client-auth-eku-only" => p.extended_key_usages = vec![ExtendedKeyUsagePurpose::ClientAuth],
+                "unknown-critical-extension" => {
+                    let mut e = CustomExtension::from_oid_content(&[1, 3, 6, 1, 4, 1, 55555, 1], vec![0x05, 0x00]);
+                    e.set_criticality(true);
+                    p.custom_extensions = vec![e];
+                }
+                "ip-only-san" => p.subject_alt_names = vec![SanType::IpAddress(std::net::IpAddr::from([192, 0, 2, 1]))],
+                "no-san" => {}
+                other => panic!("unknown odd certificate kind {other}"),
+            }
+            let k = newkey();
+            let c = p.signed_by(&k, &Issuer::from_params(&a.params, &a.key)).expect("odd leaf");
+            (c.pem(), k.serialize_pem(), a.pem.clone())
+        }
+    };
+    pki.write(&format!("{stem}.pem"), &file);
+    pki.write(&format!("{stem}.key"), &key);
+    pki.write(&format!("{stem}_root.pem"), &root);
+}
+
+#[derive(Debug)]
+struct FixedCert(Arc<rustls::sign::CertifiedKey>);
+
+impl rustls::server::ResolvesServerCert for FixedCert {
+    fn resolve(&self, _hello: rustls::server::ClientHello<'_>) -> Option<Arc<rustls::sign::CertifiedKey>> {
+        Some(self.0.clone())
+    }
+}
+
+/// A TLS server that is not penguin: presents the chain of `cert_file` without looking at it (rustls'
+/// `with_single_cert`, hence penguin's `make_server_config`, refuses e.g. an unknown critical extension).
+fn foreign_server_config(cert_file: &str, key_file: &str, client_ca: Option<&str>) -> Result<rustls::ServerConfig, String> {
+    use rustls::pki_types::pem::PemObject;
+    use rustls::pki_types::{CertificateDer, PrivateKeyDer};
+    let chain: Vec<CertificateDer<'static>> = CertificateDer::pem_file_iter(cert_file)
+        .map_err(|e| format!("{e}"))?
+        .collect::<Result<_, _>>()
+        .map_err(|e| format!("{e}"))?;
+    let key = PrivateKeyDer::from_pem_file(key_file).map_err(|e| format!("{e}"))?;
+    let provider = rustls::crypto::CryptoProvider::get_default().ok_or("no crypto provider installed")?.clone();
+    let sk = provider.key_provider.load_private_key(key).map_err(|e| format!("{e}"))?;
+    let b = rustls::ServerConfig::builder_with_provider(provider.clone()).with_safe_default_protocol_versions().map_err(|e| format!("{e}"))?;
+    let b = match client_ca {
+        None => b.with_no_client_auth(),
+        Some(ca) => {
+            let mut roots = rustls::RootCertStore::empty();
+            for c in CertificateDer::pem_file_iter(ca).map_err(|e| format!("{e}"))? {
+                roots.add(c.map_err(|e| format!("{e}"))?).map_err(|e| format!("{e}"))?;
+            }
+            let v = rustls::server::WebPkiClientVerifier::builder_with_provider(Arc::new(roots), provider).build().map_err(|e| format!("{e}"))?;
+            b.with_client_cert_verifier(v)
+        }
+    };
+    Ok(b.with_cert_resolver(Arc::new(FixedCert(Arc::new(rustls::sign::CertifiedKey::new(chain, sk))))))
+}
+
+fn alg_of_name(alg: &str) -> &'static str {
+    ["p256", "p384", "ed25519", "rsa"].into_iter().find(|a| *a == alg).unwrap_or("p256")
+}
+
+#[derive(Clone, Debug, PartialEq, Eq)]
+struct OCase {
+    kind: String,
+    alg: String,
+    /// "none" (the platform store: CA P) | "a" (an unrelated `--tls-ca` bundle) | "own" (the odd PKI's own root as `--tls-ca`)
+    roots: String,
+    /// `--tls-cert/--tls-key` given, and the server configured with the client CA that issued it
+    cli_cert: bool,
+    skip: bool,
+    /// the client asks for `server.test` (else `other.test`)
+    name_match: bool,
+}
+
+impl OCase {
+    fn to_json(&self) -> Value {
+        json!({"kind": self.kind, "alg": self.alg, "roots": self.roots, "cli_cert": self.cli_cert, "skip": self.skip, "name_match": self.name_match})
+    }
+    fn from_json(v: &Value) -> Option<Self> {
+        let kind = v["kind"].as_str()?.to_string();
+        let roots = v["roots"].as_str()?.to_string();
+        if !ODD_KINDS.contains(&kind.as_str()) || !ODD_ROOTS.contains(&roots.as_str()) {
+            return None;
+        }
+        Some(Self {
+            kind,
+            alg: alg_of_name(v["alg"].as_str()?).to_string(),
+            roots,
+            cli_cert: v["cli_cert"].as_bool()?,
+            skip: v["skip"].as_bool()?,
+            name_match: v["name_match"].as_bool()?,
+        })
+    }
+    fn replay(&self) -> Value {
+        let mut v = self.to_json();
+        v["op"] = json!("odd");
+        v
+    }
+    fn name(&self) -> &'static str {
+        if self.name_match { GOOD_NAME } else { OTHER_NAME }
+    }
+    /// "issued under the roots the client was given and carries the requested name" — in the sense of the
+    /// existing matrix (who issued it, which names it lists), nothing else about the certificate
+    fn issued_and_named(&self) -> bool {
+        self.roots == "own" && self.name_match && odd_names_host(&self.kind)
+    }
+    /// `Some(must complete?)` where the property / the existing matrix defines the outcome
+    fn required(&self) -> Option<bool> {
+        if self.skip && ODD_NOT_JUDGED_UNDER_SKIP.contains(&self.kind.as_str()) {
+            None
+        } else if self.skip {
+            Some(true)
+        } else if self.issued_and_named() {
+            None
+        } else {
+            Some(false)
+        }
+    }
+    /// Request line for `drv_tls` (issuer label 7 = the odd PKI's root; the oddity itself is not modelled)
+    fn model_line(&self) -> String {
+        format!(
+            "hs 7:{} {} {} {} {} {} {}",
+            if odd_names_host(&self.kind) { GOOD_NAME } else { "-" },
+            if self.cli_cert { "5" } else { "-" },
+            if self.cli_cert { "5:client.test" } else { "-" },
+            u8::from(self.cli_cert),
+            match self.roots.as_str() {
+                "none" => "-",
+                "a" => "1",
+                _ => "7",
+            },
+            u8::from(self.skip),
+            self.name()
+        )
+    }
+    fn detail(&self) -> String {
+        format!("{} key, client roots {}, client certificate {}, asks for {}{}", self.alg,
+            match self.roots.as_str() {
+                "none" => "= platform store (CA P)",
+                "a" => "= --tls-ca with an unrelated CA",
+                _ => "= --tls-ca with the certificate's own root",
+            },
+            if self.cli_cert { "configured" } else { "not configured" },
+            self.name(),
+            if self.name_match { "" } else { " (not in the certificate)" })
+    }
+    fn key(&self, round: &Round) -> String {
+        if self.skip {
+            format!("skip-verify refuses: {} [{}; round {}]", self.kind, self.detail(), round.idx)
+        } else {
+            format!("odd certificate, verification on: {} [{}; round {}]", self.kind, self.detail(), round.idx)
+        }
+    }
+    async fn run(&self, pki: &Pki) -> Obs {
+        self.run_on(pki).await.0
+    }
+    /// (outcome, whether penguin's `make_server_config` refused to load the certificate so that the case ran
+    /// against `foreign_server_config`)
+    async fn run_on(&self, pki: &Pki) -> (Obs, bool) {
+        ensure_odd(pki, &self.alg, &self.kind);
+        let stem = odd_stem(&self.alg, &self.kind);
+        let cli_ca = match self.roots.as_str() {
+            "none" => None,
+            "a" => Some(pki.p("ca_a.pem")),
+            _ => Some(pki.p(&format!("{stem}_root.pem"))),
+        };
+        let (srv_ca, cc, ck) = if self.cli_cert {
+            (Some(pki.p("ca_c.pem")), Some(pki.p("cli_trusted.pem")), Some(pki.p("cli_trusted.key")))
+        } else {
+            (None, None, None)
+        };
+        let (cert, key) = (pki.p(&format!("{stem}.pem")), pki.p(&format!("{stem}.key")));
+        // penguin's own server where it agrees to serve this certificate; else a server that is not penguin
+        // (this family is about what the CLIENT accepts; any server may present any certificate)
+        let (cfg, foreign) = match make_server_config(&cert, &key, srv_ca.as_deref()).await {
+            Ok(cfg) => (cfg, false),
+            Err(_) => match foreign_server_config(&cert, &key, srv_ca.as_deref()) {
+                Ok(cfg) => (cfg, true),
+                Err(e) => return (Obs::Other(format!("no server could be configured with this certificate: {e}")), true),
+            },
+        };
+        (handshake_against(cfg, self.name(), cc.as_deref(), ck.as_deref(), cli_ca.as_deref(), self.skip).await, foreign)
+    }
+    /// the property evaluated directly
+    fn problem(&self, obs: &Obs) -> Option<String> {
+        let completed = matches!(obs, Obs::Ok { .. });
+        match self.required() {
+            Some(true) if !completed => Some(format!(
+                "the client was told to skip verification, so ANY server certificate is accepted; this one is {} and the real code: {obs:?}",
+                odd_text(&self.kind))),
+            Some(true) if *obs != (Obs::Ok { server_saw_client_cert: self.cli_cert }) => Some(format!(
+                "the handshake completed but the server {} a client certificate although one was {}",
+                if self.cli_cert { "did not see" } else { "saw" }, if self.cli_cert { "configured and asked for" } else { "not configured" })),
+            Some(false) if completed => Some(format!(
+                "verification is on and the certificate ({}) is {}: it must be refused; the real code: {obs:?}",
+                odd_text(&self.kind),
+                if self.roots != "own" { "not issued under the roots the client was given" } else { "not valid for the requested name" })),
+            _ => None,
+        }
+    }
+}
+
+/// `few`: the quick tier's handful (on the round's key algorithm, plus the CA:TRUE certificate with two other
+/// key types); else everything for the round's algorithm.
+fn odd_cases(few: bool, alg: &str, rng: &mut Rng) -> Vec<OCase> {
+    let mk = |kind: &str, alg: &str, roots: &str, cli_cert: bool, skip: bool, name_match: bool| OCase {
+        kind: kind.into(), alg: alg.into(), roots: roots.into(), cli_cert, skip, name_match };
+    let mut v = vec![];
+    if few {
+        // the certificate everybody makes by hand, under every kind of client roots
+        for roots in ODD_ROOTS {
+            v.push(mk("self-signed-ca-true", alg, roots, false, true, true));
+        }
+        v.push(mk("self-signed-ca-true", alg, "a", true, true, false));
+        v.push(mk("root-as-server-cert", alg, "own", false, true, true));
+        // every other kind once under skip-verify; roots, client certificate and name are the seed's
+        for kind in &ODD_KINDS[2..] {
+            v.push(mk(kind, alg, ODD_ROOTS[rng.below(3) as usize], rng.chance(1, 2), true, rng.chance(1, 2)));
+        }
+        // other key types
+        for other in ["ed25519", "rsa", "p384"].into_iter().filter(|a| *a != alg).take(2) {
+            v.push(mk("self-signed-ca-true", other, "none", false, true, true));
+        }
+        // verification on: refused because of who issued it / because of the name; and one the matrix does not define
+        v.push(mk("self-signed-ca-true", alg, "a", false, false, true));
+        v.push(mk("no-san", alg, "own", false, false, true));
+        v.push(mk("expired", alg, "own", false, false, true));
+    } else {
+        for kind in ODD_KINDS {
+            for roots in ODD_ROOTS {
+                for (cli_cert, skip, name_match) in
+                    [(false, true, true), (true, true, true), (false, true, false), (false, false, true), (true, false, true), (false, false, false)]
+                {
+                    v.push(mk(kind, alg, roots, cli_cert, skip, name_match));
+                }
+            }
+        }
+        shuffle(&mut v, rng);
+    }
+    v
+}
+
+async fn odd_part(cx: &mut Ctx, pki: &Pki, round: &Round, cases: &[OCase]) {
+    let t0 = std::time::Instant::now();
+    let model: Option<Vec<String>> = cx.drv.as_mut().map(|d| d.batch(&cases.iter().map(OCase::model_line).collect::<Vec<_>>()));
+    for (i, c) in cases.iter().enumerate() {
+        let key = c.key(round);
+        cx.rep.case(Some(fnv(format!("{key} {}", c.alg).as_bytes())));
+        let (obs, foreign) = match tokio::time::timeout(CASE_TIMEOUT, c.run_on(pki)).await {
+            Ok(o) => o,
+            Err(_) => (Obs::Other("timeout".into()), false),
+        };
+        let why = match &obs {
+            Obs::ClientRejects(w) | Obs::ServerRejects(w) | Obs::ConfigError(w) => {
+                format!(" ({})", w.split(|ch: char| !ch.is_ascii_alphanumeric()).next().unwrap_or(""))
+            }
+            _ => String::new(),
+        };
+        let judged = c.required().is_some();
+        cx.rep.count(&format!("odd/{}{}/{}/{}{why}", if c.skip { "skip-verify" } else { "verify" }, if judged { "" } else { "-not-judged" }, c.kind, obs.kind()));
+        cx.rep.count(&format!("odd/roots={}/client-cert={}/key={}", c.roots, c.cli_cert, c.alg));
+        cx.rep.count(&format!("odd/server={}", if foreign { "not-penguin (make_server_config refuses this certificate)" } else { "make_server_config" }));
+        if let Some(why) = c.problem(&obs) {
+            cx.rep.fail(FailKind::Impl, &key, &why, c.replay());
+        }
+        if matches!(obs, Obs::Other(_) | Obs::ConfigError(_) | Obs::DnsName) {
+            // never silently accepted: an outcome the harness cannot classify
+            cx.rep.fail(FailKind::Model, &format!("unclassified {key}"), &format!("{obs:?}"), c.replay());
+        }
+        if let (Some(m), true) = (&model, judged) {
+            cx.rep.model_compared += 1;
+            let ml = &m[i];
+            let real_ok = matches!(obs, Obs::Ok { .. });
+            let mut agree = ml.split(' ').next() == Some(obs.kind()) && ml.contains(&format!("ok={real_ok}"));
+            if let Obs::Ok { server_saw_client_cert } = obs {
+                agree &= ml.contains(&format!("presented={}", u8::from(server_saw_client_cert)));
+            }
+            if !agree {
+                cx.rep.fail(FailKind::Model, &format!("model {key}"), &format!("model `{ml}` (for `{}`) vs implementation {obs:?}", c.model_line()), c.replay());
+            }
+        }
+        if c.skip && c.kind == "self-signed-ca-true" && c.roots == "a" && !c.cli_cert && round.idx == 0 {
+            cx.rep.sample(json!({"odd": c.to_json(), "certificate": odd_text(&c.kind), "impl": format!("{obs:?}")}));
+        }
+    }
+    cx.rep.count_n("odd/ms", t0.elapsed().as_millis() as u64);
 }
 
 // ---------------------------------------------------------------------------------------------
@@ -2989,6 +3474,38 @@ fn replay(path: &str, platform: &Platform) -> i32 {
                 1
             }
         }
+        Some("odd") => {
+            let Some(c) = OCase::from_json(rp) else {
+                println!("unreadable odd-certificate case");
+                return 2;
+            };
+            let round = Round { idx: 0, alg: alg_of_name(&c.alg), intermediate: false, mismatch_on_cert: false };
+            let pki = Pki::generate(&base, &round);
+            println!("case      server certificate: {} ({}); {}; --tls-skip-verify {}", c.kind, odd_text(&c.kind), c.detail(), if c.skip { "ON" } else { "off" });
+            println!("required  {}", match c.required() {
+                Some(true) => "the handshake completes (skip-verify: any certificate is accepted)",
+                Some(false) => "the handshake is refused (not issued under the client's roots, or not valid for the requested name)",
+                None if c.skip => "nothing (not judged: the unchanged client refuses this kind under skip-verify while checking the handshake signature; reported as a candidate finding)",
+                None => "nothing (outcome left to rustls/webpki: issued under the client's roots and named, odd otherwise)",
+            });
+            let obs = rt.block_on(c.run(&pki));
+            println!("impl      {obs:?}");
+            println!("model     hs request `{}`", c.model_line());
+            match c.problem(&obs) {
+                None if matches!(obs, Obs::Other(_) | Obs::ConfigError(_) | Obs::DnsName) => {
+                    println!("could not classify the outcome");
+                    2
+                }
+                None => {
+                    println!("holds on this input");
+                    0
+                }
+                Some(why) => {
+                    println!("FAILS: {why}");
+                    1
+                }
+            }
+        }
         Some("nameh") => {
             let Some(c) = HCase::from_json(rp) else {
                 println!("unreadable nameh case");
@@ -3067,7 +3584,11 @@ matches/differs} x {skip-verify} x {client cert: none/trusted CA/other CA} x {se
 handshake per PKI round (key algorithm, direct or via an intermediate, name mismatch on the request or on the \
 certificate), plus configuration corner cases, CertificateRequest probes, the client's server-name choice (also under custom request headers: none / Host: another host / \
 host: another host / an unrelated header / Host: the requested name, against a certificate for the requested name, for the header's \
-host only, for the URL host only), the reload \
+host only, for the URL host only), odd server certificates under skip-verify (CA:TRUE self-signed, a root used as server \
+certificate, withheld intermediate, expired, not yet valid, clientAuth-only, name-constraint violation, unknown critical extension, \
+no SAN, IP-only SAN, eight intermediates, pathLen violation, bad signature; client roots platform / unrelated bundle / own root; with \
+and without client certificate; must complete with skip-verify on, refused with it off whenever not issued under the client's roots \
+or not named), the reload \
 scenario, histories of reloads with long-lived clients that keep their TLS session store (every client-CA transition) and \
 histories of SIGUSR1-driven reloads (valid and broken files) against the real server_main, and --tls-ca files without \
 usable certificate (DER, TRUSTED CERTIFICATE, key only, empty, truncated) on either side with the platform trust store under the \
@@ -3109,6 +3630,14 @@ harness's control (client, server start, reload, server_main start and SIGUSR1);
                     .filter_map(|v| HCase::from_json(&v))
                     .collect();
                 nameh_part(&mut cx, &pki, &rounds[0], &hcs).await;
+                // `odd <json case>` lines: odd server certificates with skip-verify on / off
+                let ocs: Vec<OCase> = text
+                    .lines()
+                    .filter_map(|l| l.strip_prefix("odd "))
+                    .filter_map(|j| serde_json::from_str::<Value>(j).ok())
+                    .filter_map(|v| OCase::from_json(&v))
+                    .collect();
+                odd_part(&mut cx, &pki, &rounds[0], &ocs).await;
                 // `resume …` lines: returning-client scenarios
                 let rscs: Vec<RScenario> = text.lines().filter_map(RScenario::parse).collect();
                 if !rscs.is_empty() {
@@ -3138,6 +3667,9 @@ harness's control (client, server start, reload, server_main start and SIGUSR1);
                 // the same choice under custom request headers: a handful in quick, the whole matrix in thorough
                 let hcs = nameh_cases(args.tier == Tier::Quick, &mut rng);
                 nameh_part(&mut cx, &pki, round, &hcs).await;
+                // odd server certificates under skip-verify: a handful in quick, all of them in thorough
+                let ocs = odd_cases(args.tier == Tier::Quick, round.alg, &mut rng);
+                odd_part(&mut cx, &pki, round, &ocs).await;
                 reload_part(&mut cx, &pki, round).await;
                 // returning clients: the fixed family (all policy transitions) plus seeded histories
                 let leaves = resume_leaves(round);
@@ -3193,6 +3725,15 @@ reload_tls_identity, server_main start, server_main + SIGUSR1) never serves a cl
         if platform_present { "reaches" } else { "does NOT reach" },
         if platform_present { "present and under the harness's control" } else { "ABSENT: a fall-back to the platform store cannot be observed in this build" },
         UNUSABLE.join(", ")
+    ));
+    cx.rep.notes.push(format!(
+        "odd-certificate family: kinds {}; with skip-verify on every kind must be accepted (judged, and compared with the model) except {}: \
+run and counted but NOT judged, because the unchanged client refuses it even under skip-verify (EmptyVerifier::verify_tls13_signature -> \
+rustls::crypto::verify_tls13_signature parses the end-entity certificate with webpki, which rejects an unknown critical extension); \
+penguin's make_server_config refuses to load that certificate too, so those cases run against a rustls server configured by the harness; \
+with skip-verify off a case is judged only when the certificate is not issued under the client's roots or does not carry the requested name",
+        ODD_KINDS.join(", "),
+        ODD_NOT_JUDGED_UNDER_SKIP.join(", ")
     ));
     if let Some(d) = &cx.drv {
         cx.rep.notes.push(format!("driver lines: {}", d.lines));
